@@ -76,12 +76,17 @@ func (s *c15Server) serve(conn io.ReadWriteCloser) {
 			caps := s.caps[k]
 			s.last = caps
 			s.mu.Unlock()
+			// the reply lists exactly the drawn capabilities - possibly none,
+			// which makes it a single line
+			lines := append([]string{"fake"}, caps...)
 			var sb strings.Builder
-			sb.WriteString("250-fake")
-			for _, c := range caps {
-				sb.WriteString("\r\n250-" + c)
+			for i, l := range lines {
+				if i == len(lines)-1 {
+					sb.WriteString("250 " + l + "\r\n")
+				} else {
+					sb.WriteString("250-" + l + "\r\n")
+				}
 			}
-			sb.WriteString("\r\n250 PIPELINING\r\n")
 			io.WriteString(conn, sb.String())
 		case strings.HasPrefix(up, "QUIT"):
 			io.WriteString(conn, "221 2.0.0 bye\r\n")
@@ -280,6 +285,9 @@ var c15Exts = []string{"8BITMIME", "SIZE 1000", "DSN", "SMTPUTF8", "REQUIRETLS",
 
 func c15GenCaps(t *rapid.T) []string {
 	var out []string
+	if rapid.IntRange(0, 4).Draw(t, "nocaps") == 0 {
+		return nil // a bare "250 host" reply
+	}
 	for _, e := range c15Exts {
 		if rapid.Bool().Draw(t, "cap") {
 			out = append(out, e)
